@@ -71,7 +71,15 @@ impl Numeric {
                 )
             }
             Parity::Float(left, right) => {
-                (Numeric::Float(left / right), Numeric::Float(left % right))
+                // The quotient that belongs to the remainder is a whole
+                // number. (`%` is exact; `left / right` may round up to the
+                // next whole number while the remainder is still almost a
+                // full `right`.)
+                let rem = left % right;
+                (
+                    Numeric::Float(((left - rem) / right).round()),
+                    Numeric::Float(rem),
+                )
             }
         }
     }
